@@ -650,13 +650,13 @@ func (tx *Transaction) HashForWitnessV0(inIndex int, prevoutScript []byte, value
 		(hashType&0x1f) != txscript.SigHashNone {
 		hashOutputs = calcTxOutputsHash(tx.Outputs)
 		if shouldCalculateRangeProofsHash {
-			hashForRangeProofs = calcTxOutputsHash(tx.Outputs)
+			hashForRangeProofs = calcTxRangeProofsHash(tx.Outputs)
 		}
 	} else {
 		if (hashType&0x1f) == txscript.SigHashSingle && inIndex < len(tx.Outputs) {
 			hashOutputs = calcTxOutputsHash([]*TxOutput{tx.Outputs[inIndex]})
 			if shouldCalculateRangeProofsHash {
-				hashForRangeProofs = calcTxOutputsHash([]*TxOutput{tx.Outputs[inIndex]})
+				hashForRangeProofs = calcTxRangeProofsHash([]*TxOutput{tx.Outputs[inIndex]})
 			}
 		}
 	}
@@ -1016,6 +1016,15 @@ func serializeOutputs(outs []*TxOutput) []byte {
 func calcTxOutputsHash(outs []*TxOutput) [32]byte {
 	b := serializeOutputs(outs)
 	return chainhash.DoubleHashH(b)
+}
+
+func calcTxRangeProofsHash(outs []*TxOutput) [32]byte {
+	s := bufferutil.NewSerializer(nil)
+	for _, out := range outs {
+		s.WriteVarSlice(out.RangeProof)
+		s.WriteVarSlice(out.SurjectionProof)
+	}
+	return chainhash.DoubleHashH(s.Bytes())
 }
 
 func calcTxOutputsSingleHash(outs []*TxOutput) [32]byte {
